@@ -120,7 +120,7 @@ Proof.
 Qed.
 
 Lemma between_np v : np (parse_between v).
-Proof. unfold parse_between. np_auto. Qed.
+Proof. unfold parse_between. np_auto; apply integer_number_np. Qed.
 Lemma range_np op v : np (parse_range op true v).
 Proof. unfold parse_range. destruct op; try apply np_err; try apply between_np; (apply np_bind; [apply integer_number_np|intros; apply np_ok]). Qed.
 
